@@ -1,7 +1,7 @@
 SPECIFICATION MCSpec
 CONSTANTS
   MaxCallDepth = 12
-  Family = {1, 2, 3, 4}
+  Family = {1, 2, 3, 4, 5}
   BodyLen = 1
   DevNoParamShare = FALSE
 INVARIANTS SlotsOK FunctionBlocksOK EvalTotal
